@@ -245,10 +245,11 @@ func concRun(c *driver.Ctx, kind string, m mix) (func(), func(*vs.Result) *drive
 			f.Sig = kind + ": " + f.Sig
 			return f
 		}
-		var rs []string
+		var rs, cls []string
 		anyOK := false
 		for i, p := range m.ps {
 			rs = append(rs, fmt.Sprintf("g%d push(%s)=%v", i, p.name, errs[i]))
+			cls = append(cls, errClass(errs[i]))
 			if errs[i] == nil {
 				anyOK = true
 			}
@@ -288,7 +289,7 @@ func concRun(c *driver.Ctx, kind string, m mix) (func(), func(*vs.Result) *drive
 			}
 			c.Count("info:ingest_leftover_files", int64(len(regularFiles(filepath.Join(cs.root, "ingest")))))
 		}
-		c.Outcome(driver.Hash(kind, m.String(), strings.Join(rs, ";")))
+		c.Outcome(driver.Hash(kind, m.String(), strings.Join(cls, ";")))
 		if len(res.Trace) > 0 {
 			nd := false
 			for _, p := range res.Trace {
